@@ -280,6 +280,16 @@ impl Send {
             // the reset frame before transitioning the stream inside
             // `reclaim_all_capacity`.
             self.prioritize.clear_queue(buffer, stream);
+        } else {
+            // Only the initial HEADERS have to survive. Anything queued behind
+            // them (DATA, trailers) is dropped as for an open stream: it must
+            // not be sent, and the RST_STREAM must not wait behind
+            // flow-controlled DATA.
+            let headers = stream.pending_send.pop_front(buffer);
+            self.prioritize.clear_queue(buffer, stream);
+            if let Some(frame) = headers {
+                stream.pending_send.push_front(buffer, frame);
+            }
         }
 
         let frame = frame::Reset::new(stream.id, reason);
